@@ -640,3 +640,63 @@ func TransformPolys(polys []Poly, m Mat) []Poly {
 	}
 	return out
 }
+
+// SegDist returns the distance from q to segment s and the parameter of the nearest point: coarse
+// sampling with n steps refined by golden-section search around the best samples.
+func SegDist(s Seg, q Pt, n int) (float64, float64) {
+	if !s.Curved() {
+		a, b := s.P0, s.End()
+		d := b.Sub(a)
+		l2 := d.Dot(d)
+		t := 0.0
+		if l2 > 0 {
+			t = math.Max(0, math.Min(1, q.Sub(a).Dot(d)/l2))
+		}
+		return q.Dist(a.Add(d.Mul(t))), t
+	}
+	best, bt := math.Inf(1), 0.0
+	ds := make([]float64, n+1)
+	for i := 0; i <= n; i++ {
+		ds[i] = q.Dist(s.Eval(float64(i) / float64(n)))
+	}
+	// refine around every local minimum of the sampled distance
+	for i := 0; i <= n; i++ {
+		if (i > 0 && ds[i-1] < ds[i]) || (i < n && ds[i+1] < ds[i]) {
+			continue
+		}
+		lo := math.Max(0, float64(i-1)/float64(n))
+		hi := math.Min(1, float64(i+1)/float64(n))
+		const g = 0.6180339887498949
+		for k := 0; k < 50; k++ {
+			m1 := hi - g*(hi-lo)
+			m2 := lo + g*(hi-lo)
+			if q.Dist(s.Eval(m1)) < q.Dist(s.Eval(m2)) {
+				hi = m2
+			} else {
+				lo = m1
+			}
+		}
+		t := (lo + hi) / 2
+		if d := q.Dist(s.Eval(t)); d < best {
+			best, bt = d, t
+		}
+		if ds[i] < best {
+			best, bt = ds[i], float64(i)/float64(n)
+		}
+	}
+	return best, bt
+}
+
+// PathDist returns the distance from q to the nearest drawn segment of segs (MoveTo excluded).
+func PathDist(segs []Seg, q Pt, n int) float64 {
+	best := math.Inf(1)
+	for _, s := range segs {
+		if s.Cmd == MoveTo {
+			continue
+		}
+		if d, _ := SegDist(s, q, n); d < best {
+			best = d
+		}
+	}
+	return best
+}
